@@ -9,8 +9,21 @@ PROPS = {
     'C11': {'scans': [], 'trusted': [], 'bounded': [], 'not_claimed': []},
     'C10': {'scans': [], 'trusted': [], 'bounded': [], 'not_claimed': []},
     'C06': {'scans': [], 'trusted': [], 'bounded': [], 'not_claimed': []},
-    'C07': {'scans': [], 'trusted': [], 'bounded': [], 'not_claimed': []},
-    'C08': {'scans': [], 'trusted': [], 'bounded': [], 'not_claimed': []},
+    'C07': {'scans': [], 'trusted': [],
+            'bounded': [{'name': 'process_bundle_roundtrip', 'recipe': 'bundle_roundtrip',
+                         'functions': 'Process.save_instance_state/load_instance_state, per-state save/load (process_states), ContextMixin, '
+                                      'SavableFuture, Bundle YAML/pickle representers (whole-process round trip: not under contract)',
+                         'bound': '2 process classes (plain Wait/Continue process, WorkChain with if_/while_), every stop point up to 9 steps, '
+                                  'pause / kill / pause+kill, 3 carriers (copy, pickle, YAML): 29 scenarios x 3'}],
+            'not_claimed': ['process-level save/load is covered by the bounded search only, not proved',
+                            'traceback restoration of EXCEPTED (optional dependency) is excluded by the statement']},
+    'C08': {'scans': [], 'trusted': [],
+            'bounded': [{'name': 'checkpoint_resume_search', 'recipe': 'checkpoint_resume',
+                         'functions': 'whole-run equivalence after restore (Process.step loop, per-state continuation save/load): history property '
+                                      'outside per-function contracts',
+                         'bound': '4 outlines x 9 oracles and a 4-step Wait/Continue process x 3 input sets; every single crash point and adjacent pairs'}],
+            'not_claimed': ['equality of the resumed and the uninterrupted run is shown per stepper (representation invariant + '
+                            'save/load contracts); the composition over the whole run is covered by the bounded search only']},
     'C09': {'scans': [], 'trusted': [], 'bounded': [], 'not_claimed': []},
     'C18': {'scans': ['user_code_runs_in_scope', 'hooks_run_in_scope'], 'trusted': [], 'bounded': [], 'not_claimed': []},
     'C02': {'scans': [], 'trusted': [], 'bounded': [], 'not_claimed': []},
